@@ -6,6 +6,12 @@ use std::time::Instant;
 /// Returns (number of indices processed, timed_out). Indices are handed out in ascending order, so
 /// "processed" is a prefix up to in-flight jobs.
 pub fn par_for<F: Fn(usize) + Sync>(n: usize, threads: usize, deadline: Instant, f: F) -> (usize, bool) {
+    par_for_core(n, 0, threads, deadline, f)
+}
+
+/// Like `par_for`, but the first `required` indices (the check's required core) are executed whatever the clock says:
+/// a slow machine makes the run longer, it never turns the core into a machinery error.
+pub fn par_for_core<F: Fn(usize) + Sync>(n: usize, required: usize, threads: usize, deadline: Instant, f: F) -> (usize, bool) {
     let next = AtomicUsize::new(0);
     let done = AtomicUsize::new(0);
     let timed_out = AtomicBool::new(false);
@@ -16,11 +22,13 @@ pub fn par_for<F: Fn(usize) + Sync>(n: usize, threads: usize, deadline: Instant,
                 if i >= n {
                     break;
                 }
-                if i % 16 == 0 && Instant::now() >= deadline {
-                    timed_out.store(true, Ordering::Relaxed);
-                }
-                if timed_out.load(Ordering::Relaxed) {
-                    break;
+                if i >= required {
+                    if i % 16 == 0 && Instant::now() >= deadline {
+                        timed_out.store(true, Ordering::Relaxed);
+                    }
+                    if timed_out.load(Ordering::Relaxed) {
+                        break;
+                    }
                 }
                 f(i);
                 done.fetch_add(1, Ordering::Relaxed);
